@@ -206,6 +206,9 @@ func ParseAccept(header http.Header, key string) []AcceptSpec {
 loop:
 	for _, s := range header[key] {
 		for {
+			// empty list elements are ignored (RFC 7230 section 7)
+			for s = skipSpace(s); strings.HasPrefix(s, ","); s = skipSpace(s[1:]) {
+			}
 			var spec AcceptSpec
 			spec.Value, s = expectTokenSlash(s)
 			if spec.Value == "" {
